@@ -5,7 +5,10 @@ B1  TLC checks RoutingModel (the router at the grain of compute_constrained_path
     ROADMs, all labellings) and on 4-site meshes (quick: the seeded sample replayed below; thorough: all 15 625), plus
     model-level sanity of the judgement (what the model does not allow is rejected).
 B2  MC_Routing's generation configuration emits (mesh, batch) cases; every mesh becomes a real topology, is
-    auto-designed once and every batch goes through the real pipeline functions in planning() order; the returned
+    auto-designed once and every batch goes through the real pipeline functions in planning() order (written in one of
+    the equivalent ways Routing.tla lists: index base and order of the route objects, line hops element by element,
+    API objects, include list opened / closed by the request's own transceivers, the same request objects cleaned
+    and routed a second time); the returned
     element lists are projected and JUDGED by TLC (Trace_Routing, brute-force oracle of Routing.tla).
 B3  shipped networks: mesh V2 with its services file through the real planning(), seeded batches on mesh V2 (with
     the oracle) and on CORONET (too large for enumeration: reality / loop-freeness / STRICT hops / reverse only).
@@ -151,7 +154,7 @@ def b3(chk, p, rng):
     ev = ru.planning_trace(bench, 'meshTopologyExampleV2_services.json', 'meshV2')
     t = dict(name='meshV2:shipped-services:planning()', n=bench.nsites, links=bench.arcs, opt=1, tol=0, ev=[ev])
     traces.append(t)
-    metas[t['name']] = [dict(reqs=ev['reqs'], groups=ev['groups'], info={})]
+    metas[t['name']] = [dict(reqs=ev['reqs'], groups=ev['groups'], relax=ev['relax'], info={})]
     batches = ru.random_batches(bench, rng, p['b3'], groups=False)
     evs, meta = [], []
     for k, b in enumerate(batches):
